@@ -51,9 +51,58 @@ REQ = {
     20: ("admin:cluster", "topic", False), 23: ("fetch:topic", "topic", False), 32: ("fetch:topic", "topic", False),
     33: ("admin:cluster", "topic", False), 37: ("admin:cluster", "topic", False), 42: ("group_admin:group", "group", False),
 }
-TOPICS = ["orders", "t1", "t2", "secret"]
-GROUPS = ["g1", "g2"]
+REQ[101] = REQ[1]     # Fetch v13 by TopicID
+REQ[103] = REQ[3]     # Metadata v12 by TopicID
+TOPICS = ["orders", "Orders", "t1", "T1", "t2", "secret"]   # names differing only in letter case are DIFFERENT resources
+GROUPS = ["g1", "G1", "g2"]
 NAME_ID = {n: i + 1 for i, n in enumerate(TOPICS + GROUPS + ["*", "x", "created-by-nobody"])}
+
+
+def _fold(a, b):
+    return a.lower() == b.lower()
+
+
+def oracle_allows(acl, principal, action, resource, name):
+    """acl.Authorizer.Allows as documented (pkg/acl): deny first, then allow, then default; action/resource are matched
+    case-insensitively ('' and '*' match all); NAMES are exact and CASE-SENSITIVE, 'prefix*' and '*' patterns."""
+    principal = principal.strip() or "anonymous"
+    default = _fold(acl.get("default_policy", "").strip(), "allow")
+    rules = None
+    for p in acl.get("principals", []):
+        if p["name"].strip() == principal:
+            rules = p   # last entry of a name wins (C23 is about that)
+    if rules is None:
+        return default
+
+    def m(r):
+        if r.get("action", "") not in ("", "*") and not _fold(r["action"], action):
+            return False
+        if r.get("resource", "") not in ("", "*") and not _fold(r["resource"], resource):
+            return False
+        rn = r.get("name", "").strip()
+        if rn in ("", "*"):
+            return True
+        if rn.endswith("*"):
+            return name.startswith(rn[:-1])
+        return rn == name
+    if any(m(r) for r in rules.get("deny") or []):
+        return False
+    if any(m(r) for r in rules.get("allow") or []):
+        return True
+    return default
+
+
+def oracle_bits(acl, who, need, names):
+    if need == "-":
+        return ["1"] * len(names)
+    out = []
+    for n in names:
+        ok = False
+        for alt in need.split("|"):
+            a, r = alt.split(":")
+            ok = ok or oracle_allows(acl, who, a, r, "cluster" if r == "cluster" else n)
+        out.append("1" if ok else "0")
+    return out
 
 
 def generate(ck):
@@ -110,7 +159,21 @@ def gen_acl(rng):
     ps = [{"name": "admin", "allow": [{"action": "*", "resource": "*", "name": "*"}]}]
     for who in ("alice", "bob"):
         ps.append({"name": who, "allow": [rule() for _ in range(rng.below(5))], "deny": [rule() for _ in range(rng.below(2))]})
-    return {"default_policy": rng.choice(["deny", "deny", "deny", "allow"]), "principals": ps}
+
+    def specific():
+        k = rng.below(4)
+        if k == 0:
+            return {"action": rng.choice(["fetch", "*"]), "resource": "topic", "name": rng.choice(["secret", "orders", "Orders", "t1"])}
+        if k == 1:
+            return {"action": "produce", "resource": "topic", "name": rng.choice(TOPICS)}
+        if k == 2:
+            return {"action": rng.choice(["group_read", "group_write", "*"]), "resource": "group", "name": rng.choice(GROUPS)}
+        return {"action": "admin", "resource": "cluster", "name": "*"}
+    # wildcard allow + specific denies (the shape a 'everything except …' policy has)
+    ps.append({"name": "carol", "allow": [{"action": "*", "resource": "*", "name": "*"}], "deny": [specific() for _ in range(rng.range(1, 3))]})
+    # no allow list at all: relies on the default policy, with specific denies
+    ps.append({"name": "dave", "deny": [specific() for _ in range(rng.range(1, 2))]})
+    return {"default_policy": rng.choice(["deny", "deny", "allow", "allow"]), "principals": ps}
 
 
 def gen_session(rng, nops):
@@ -118,15 +181,17 @@ def gen_session(rng, nops):
     acl = gen_acl(rng)
     ops = ["new %s %s" % (auto, json.dumps(acl).encode().hex())]
     # state worth protecting: records, a group with a member and a committed offset, a config
-    ops += ["do admin 0 produce:topic orders,secret" if auto == "1" else "do admin 0 produce:topic orders",
-            "do admin 19 admin:cluster t1", "do admin 0 produce:topic t1", "do admin 11 group_write:group g1", "do admin 33 admin:cluster orders"]
-    keys = sorted(REQ)
+    ops += ["do admin 19 admin:cluster t1,secret,Orders", "do admin 0 produce:topic orders,secret,t1,Orders",
+            "do admin 11 group_write:group g1", "do admin 11 group_write:group G1", "do admin 33 admin:cluster orders"]
+    keys = sorted(REQ) + [101, 101, 1, 0]
     for _ in range(nops):
         k = rng.choice(keys)
         need, kind, single = REQ[k]
-        who = rng.choice(["nobody", "nobody", "alice", "bob", "alice", "bob", "admin", ""])
+        who = rng.choice(["nobody", "nobody", "alice", "bob", "alice", "bob", "carol", "carol", "dave", "admin", ""])
         if kind == "topic":
             pool = TOPICS + (["created-by-nobody"] if k in (0, 1, 2, 3, 19) else [])
+            if k in (101, 103):
+                pool = ["orders", "secret", "t1", "Orders", "t2"]
             names = [rng.choice(pool)] if (single or rng.chance(1, 2)) else list(dict.fromkeys(rng.choice(pool) for _ in range(rng.range(2, 3))))
         elif kind == "group":
             names = [rng.choice(GROUPS)] if (single or rng.chance(1, 2)) else list(GROUPS)
@@ -135,21 +200,25 @@ def gen_session(rng, nops):
         else:
             names = ["x"]
         ops.append("do %s %d %s %s" % (who if who else "anonymous", k, need, ",".join(names)))
-    return auto, ops
+    return auto, ops, acl
 
 
-def judge(ck, auto, op, o):
+def judge(ck, auto, op, o, acl=None):
     """Direct property monitor on one implementation line: (fingerprint, what) or None."""
     f = op.split()
     if f[0] != "do":
         return None
     who, key, need, names = f[1], int(f[2]), f[3], f[4].split(",")
+    byid = key >= 100
+    key = key % 100
     if o.startswith("panic"):
         return "handler-panic", "request key %d from %s made the handler panic" % (key, who)
     if not o.startswith("do "):
         return "harness-problem", o[:120]
     kv = dict(x.split("=", 1) for x in o.split() if "=" in x)
-    allowed = kv["allowed"].split(",")
+    # the verdict the property is judged by comes from the independent reading of the ACL (names are case-sensitive);
+    # the real authorizer's verdict (kv["allowed"]) is only what the code believed
+    allowed = oracle_bits(acl, "" if who == "anonymous" else who, need, names) if acl is not None else kv["allowed"].split(",")
     changed = [] if kv["changed"] == "-" else kv["changed"].split(";")
     codes = kv.get("codes", "").split(",") if "codes" in kv else []
     prefix = {"topic": "topic:", "group": "group:", "star": "group:", "none": "none:"}[REQ[key][1]]
@@ -174,13 +243,15 @@ def judge(ck, auto, op, o):
         exists = kv["exists"].split(",")
         for n, a, c, ex in zip(names, allowed, codes, exists):
             if a == "0" and c not in AUTH_CODES:
-                if key == 3 and (ex == "1" or auto == "0"):
-                    continue  # Metadata describes existing topics; the guarded effect is the auto-creation only
+                if key == 3 and (ex == "1" or auto == "0" or byid):
+                    continue  # Metadata describes existing topics; the guarded effect is the auto-creation (by name) only
+                if byid and ex == "0":
+                    continue  # unknown topic id: nothing to protect, answered UNKNOWN_TOPIC_ID
                 return "denied-item-no-authorization-error", "%s lacks %s on %s but request key %d answered code %s" % (who, need, n, key, c)
     return None
 
 
-def model_ops(auto, ops, impl):
+def model_ops(auto, ops, impl, acl=None):
     out = []
     for op, o in zip(ops, impl):
         f = op.split()
@@ -189,8 +260,15 @@ def model_ops(auto, ops, impl):
             continue
         kv = dict(x.split("=", 1) for x in o.split() if "=" in x)
         names = f[4].split(",")
-        items = ["%d:%s:%s" % (NAME_ID.get(n, 99), a, e) for n, a, e in zip(names, kv["allowed"].split(","), kv["exists"].split(","))]
-        out.append("do %s %s %s" % (f[2], auto, " ".join(items)))
+        bits = oracle_bits(acl, "" if f[1] == "anonymous" else f[1], f[3], names) if acl is not None else kv["allowed"].split(",")
+        exists = kv["exists"].split(",")
+        if int(f[2]) >= 100:
+            # by-id forms: an unknown id is answered UNKNOWN_TOPIC_ID before any check; Metadata by id creates nothing
+            if int(f[2]) == 103 or "0" in exists:
+                out.append("# " + op[:40])
+                continue
+        items = ["%d:%s:%s" % (NAME_ID.get(n, 99), a, e) for n, a, e in zip(names, bits, exists)]
+        out.append("do %d %s %s" % (int(f[2]) % 100, auto, " ".join(items)))
     return out
 
 
@@ -204,11 +282,12 @@ def run(ck):
                       "prefix/* patterns, absent principal 'nobody', anonymous; default deny or allow; auto-create on/off) + seeded state "
                       "(records, group member, config) + random requests over all 21 served request types with 1-3 named resources.  "
                       "Non-trivial = a request with at least one denied item; distinct = distinct (acl, op) pairs")
-    all_ops, autos = [], []
+    all_ops, autos, acls = [], [], []
     for s in range(nsess):
-        auto, ops = gen_session(ck.rng.fork(), nops)
+        auto, ops, acl = gen_session(ck.rng.fork(), nops)
         all_ops += ops
         autos += [auto] * len(ops)
+        acls += [acl] * len(ops)
     fn = ck.path("ops_all.txt")
     open(fn, "w").write("\n".join(all_ops) + "\n")
     rc, out, err = ck.run_bin(binary, stdin_path=fn, env={"VERIF_HARNESS": "C24"}, timeout=600)
@@ -217,22 +296,31 @@ def run(ck):
         ck.broke("implementation harness did not answer every op", "rc=%s %d/%d %s" % (rc, len(impl), len(all_ops), err[-600:]))
         return
     sess_start = 0
+    oracle_diffs = []
     for i, (op, o) in enumerate(zip(all_ops, impl)):
         if op.startswith("new"):
             sess_start = i
             ck.cov["traces_validated_against_impl"] += 1
             continue
-        has_denied = "allowed=" in o and "0" in o.split("allowed=")[1].split()[0]
-        ck.count("key%s:%s" % (op.split()[2], "denied" if has_denied else "allowed"))
+        f = op.split()
+        obits = oracle_bits(acls[i], "" if f[1] == "anonymous" else f[1], f[3], f[4].split(","))
+        has_denied = "0" in obits
+        ck.count("key%s:%s" % (f[2], "denied" if has_denied else "allowed"))
         ck.case((all_ops[sess_start], op), nontrivial=has_denied, sample={"op": op, "impl": o[:160]} if has_denied else None)
-        m = judge(ck, autos[i], op, o)
+        if "allowed=" in o and o.split("allowed=")[1].split()[0].split(",") != obits:
+            oracle_diffs.append((i, op, o, obits))
+        m = judge(ck, autos[i], op, o, acls[i])
         if m:
             pre = [all_ops[sess_start]] + [x for x in all_ops[sess_start + 1:i] if x.startswith("do admin")][:5]
             ck.violation(m[0], m[1], {"ops": pre + [op], "auto": autos[i], "actual": o})
+    if oracle_diffs and not ck.violations:
+        i, op, o, obits = oracle_diffs[0]
+        ck.broke("the authorizer's verdict differs from the documented ACL semantics (names exact and case-sensitive) — C23's subject",
+                 "acl=%s\nop %s\nimpl : %s\noracle: %s" % (json.dumps(acls[i]), op, o, ",".join(obits)))
     # correspondence: the gate model (granularity from the regenerated table) predicts the denied items
     mops = []
-    for a, op, o in zip(autos, all_ops, impl):
-        mops += model_ops(a, [op], [o])
+    for a, op, o, acl in zip(autos, all_ops, impl, acls):
+        mops += model_ops(a, [op], [o], acl)
     mfn = ck.path("mops_all.txt")
     open(mfn, "w").write("\n".join(mops) + "\n")
     mod = ck.lean_run("C24", mfn)
@@ -254,7 +342,7 @@ def run(ck):
         got = ",".join("1" if c in AUTH_CODES else "0" for c in codes)
         want = m.split()[0].split("=")[1] if m.startswith("deny=") else m
         # code 29 also means "admin APIs disabled"; compare on denied items and wherever the model predicts a denial
-        allowed = kv["allowed"].split(",")
+        allowed = [x.split(":")[1] for x in mo.split()[3:]]
         bad = any((w == "1") != (g == "1") for w, g, a in zip(want.split(","), got.split(","), allowed) if a == "0" or w == "1")
         if bad and not ck.violations:
             ck.cov["disagreements_checked"] += 1
@@ -274,11 +362,12 @@ def replay(ck, path):
     open(fn, "w").write("\n".join(ops) + "\n")
     rc, out, err = ck.run_bin(st["bins"]["b"], stdin_path=fn, env={"VERIF_HARNESS": "C24"}, timeout=120)
     impl = out.split("\n")[:-1]
-    print("  acl:", bytes.fromhex(ops[0].split()[2]).decode())
+    acl = json.loads(bytes.fromhex(ops[0].split()[2]).decode())
+    print("  acl:", json.dumps(acl))
     for op, o in zip(ops, impl):
         print("  %s\n     -> %s" % (op[:100] if op.startswith("do") else op[:12] + "…", o))
         ck.case(op, sample={"op": op[:100], "impl": o[:160]})
-        m = judge(ck, rep.get("auto", ops[0].split()[1]), op, o)
+        m = judge(ck, rep.get("auto", ops[0].split()[1]), op, o, acl)
         if m:
             ck.violation(m[0], m[1], {"ops": ops, "actual": o})
     ck.cov["distinct_nontrivial"] = max(ck.cov["distinct_nontrivial"], 2)
